@@ -13,7 +13,7 @@ cd "$VERIF_DIR" || exit 2
 mkdir -p .build evidence replays
 BIN="$VERIF_DIR/.build/check.$$"
 MODFLAG=""
-trap 'rm -f "$BIN" "$VERIF_DIR/.build/build.$$.log" "$VERIF_DIR/.build/go.$$.mod" "$VERIF_DIR/.build/go.$$.sum"' EXIT
+trap 'rm -f "$BIN" "$VERIF_DIR/.build/stderr.$$.log" "$VERIF_DIR/.build/build.$$.log" "$VERIF_DIR/.build/go.$$.mod" "$VERIF_DIR/.build/go.$$.sum"' EXIT
 if [ "$REPO" != "/repo" ]; then
   # development aid: check another checkout (e.g. a scratch worktree with a seeded change)
   sed "s#=> /repo#=> $REPO#" go.mod > .build/go.$$.mod
@@ -63,5 +63,24 @@ case "${1:-}" in
   "") echo "usage: $0 <property> <quick|thorough> | --replay <file> | --build" >&2; exit 2 ;;
 esac
 build || exit 2
-"$BIN" "$1" "${2:-quick}"
-exit $?
+"$BIN" "$1" "${2:-quick}" 2> "$VERIF_DIR/.build/stderr.$$.log"
+code=$?
+cat "$VERIF_DIR/.build/stderr.$$.log" >&2
+if [ $code -ge 2 ] && grep -q '^panic: \|^fatal error: ' "$VERIF_DIR/.build/stderr.$$.log"; then
+  # the checker itself died at start-up: the library panics while its packages are
+  # initialised (or in the driver), before any scenario could run
+  OUTD="${VERIF_OUT:-$VERIF_DIR}"
+  mkdir -p "$OUTD/replays"
+  R="$OUTD/replays/$1-startup.json"
+  python3 - "$1" "$VERIF_DIR/.build/stderr.$$.log" > "$R" <<'PY'
+import json, sys
+print(json.dumps({"property": sys.argv[1], "clause": sys.argv[1] + ".no-panic", "scenario": "(process start-up)", "history": [],
+                  "detail": open(sys.argv[2]).read()[:4000]}, indent=1))
+PY
+  echo "VIOLATION property=$1 replay=$R"
+  echo "  clause=$1.no-panic: the checker process panicked before any scenario ran (a panic while the library's packages are initialised kills every program that imports them)"
+  rm -f "$VERIF_DIR/.build/stderr.$$.log"
+  exit 1
+fi
+rm -f "$VERIF_DIR/.build/stderr.$$.log"
+exit $code
